@@ -98,7 +98,7 @@ PROPS = {
     ),
     "C05": dict(
         level="other",
-        contracts=["contracts.sections", "contracts.lines"],
+        contracts=["contracts.sections", "contracts.lines", "contracts.heading"],
         harness=True,
         explanation=(
             "PROVED for every state of the open-level map and every level >= 1 (hence, by induction over the heading "
@@ -109,9 +109,13 @@ PROPS = {
             "'header' warning iff P+1 != level and none otherwise; the map invariant (level 0 always open, no negative "
             "level) is preserved; max() never sees an empty sequence.  Relative to the assumed docutils node model "
             "(append) and the abstracted warning API.  BOUNDED: whole-document nesting, warning counts and order against "
-            "a reference model for all level sequences up to a length, and headings nested in block quotes / list items / "
-            "directive bodies become rubrics with a level and leave the section structure alone (render_heading itself "
-            "is not yet under contract)."
+            "a reference model for all level sequences up to a length.  render_heading (under contract, relative to G' and "
+            "the assumed generate_heading_target): where the current node is the document, a section or the temporary root "
+            "of a match_titles parse it opens a section - a NEW section node becomes the current node and the open section "
+            "of its level, attached (by update_section_level_state, whose call-site preconditions - parentless, not an open "
+            "section, well-formed map, level >= 1 - are discharged here) to a node that was open, with its title as first "
+            "child at the heading's line; everywhere else (block quotes, list items, directive bodies) it is a rubric below "
+            "the current node and the current node and the open-level map are EXACTLY what they were."
         ),
         assumptions=ENC,
         trusted_base=["docutils node model (contracts/assumed_docutils.py)"],
@@ -324,13 +328,15 @@ PROPS = {
     ),
     "C03": dict(
         level="other",
-        contracts=["contracts.sections", "contracts.render"],
+        contracts=["contracts.sections", "contracts.render", "contracts.heading"],
         harness=True,
         explanation=(
             "PROVED (pyvc, relative to the docutils node model): update_section_level_state requires the new section to be "
             "parentless and not one of the open sections (single parent / occurs once at that call site) and attaches it to "
             "a value of the open-level map - by the map invariant a document or a section - so sections occur only directly "
-            "under the document or another section, for every heading sequence; the fifteen render methods under the generic "
+            "under the document or another section, for every heading sequence - and render_heading, its only caller, is "
+            "proved to call it with a fresh parentless section only when the current node is the document, a section or "
+            "a temporary root, and to put the title first; the fifteen render methods under the generic "
             "render contract (see C02) attach every node they create exactly once, with its parent set, below the current "
             "node (single parent, no node shared).  The other clauses of C03 (title first, "
             "transitions, unique ids, refid existence, table shape, footnote labels) are not yet under contract and are "
